@@ -15,7 +15,7 @@ EXPLANATION = (
     "id, and (no include list, or listed by number or by id), ids case-insensitive. [CLAIM-MAP] for the claim PGN the source-map store is reached "
     "before any filter return in every model. [FILTER-NORM] every membership test against an id list has a lower-cased probe. [FILTER-PRE] a "
     "decision by number is taken in _decode, before reassembly state is touched. [FILTER-PURE] nothing filter-dependent is written into the message. "
-    "UNDECIDED: 'same positions' over whole histories (follows from the above together with C04/C16, not executed)."
+    "The constructor is interpreted (absint.py) on every configuration of the table, so the claim flag, the list splitting and the removal of the claim from the lists may be spelled in any way. UNDECIDED: 'same positions' over whole histories (follows from the above together with C04/C16, not executed)."
 )
 ASSUMPTIONS = ["CPython ast parser", "sym.py guard extraction (program order, if/else joined)", "teval.py evaluates Python's in / not in / len / and / or / == on stand-in lists",
                "non-filter early returns (network map window, manufacturer filter, unknown PGN) are held at their non-firing value"]
